@@ -46,16 +46,21 @@ ASSUMPTIONS = [
     "between - observation outside the property's statement, not flagged)",
 ]
 
+# cellF / memo carry the faults (exceptions raised out of a terminal query): Faults = {"kbd", "exc"}
 CELL_MODELS = ["MC_TermCache_cellA_dump.cfg", "MC_TermCache_cellB_dump.cfg", "MC_TermCache_cellC_dump.cfg",
-               "MC_TermCache_memo_dump.cfg"]
+               "MC_TermCache_cellF_dump.cfg", "MC_TermCache_memo_dump.cfg"]
 VARIANTS = {
     "noswapclear": ("MC_TermCache_var.cfg", "enable_win_size_swap does not clear the cell-size cache"),
     "noqueryinval": ("MC_TermCache_var.cfg", "enable_queries does not invalidate get_fg_bg_colors"),
     "noquerycellclear": ("MC_TermCache_var.cfg", "enable_queries does not clear the cell-size cache"),
     "colsonly": ("MC_TermCache_var.cfg", "cell-size cache keyed on columns only"),
+    "interimcell": ("MC_TermCache_var.cfg", "get_cell_size() writes an interim cache entry before the query; "
+                                            "an exception raised out of the query leaves it behind"),
+    "interimmemo": ("MC_TermCache_var.cfg", "a memoized query function stores `undetermined` before its body "
+                                            "has returned; a raising body leaves it behind"),
 }
 ALL_ACTIONS = {"Resize", "EnableSwap", "DisableSwap", "EnableQueries", "DisableQueries", "SetRatioFloat",
-               "SetRatioAuto", "GetCellSize", "GetRatio", "Memoized"}
+               "SetRatioAuto", "GetCellSize", "GetRatio", "Memoized", "CellFault", "SetRatioFault", "MemoFault"}
 
 
 def src_of(rep: Report) -> str:
@@ -77,7 +82,7 @@ def edge_pipeline(cfg: str, src: str, seed: int, histories: dict | None, full: b
     tamper_at = None
     if cfg == CELL_MODELS[0]:
         t0 = copy.deepcopy(tours[0])
-        tamper_at = next((i for i, e in enumerate(t0) if e["op"]["op"] == "GetCellSize" and e["op"]["res"] != [0, 0]), None)
+        tamper_at = next((i for i, e in enumerate(t0) if e["op"]["op"] == "GetCellSize" and not e["op"]["fault"] and e["op"]["res"] != [0, 0]), None)
         if tamper_at is not None:
             t0[tamper_at]["op"]["res"] = [t0[tamper_at]["op"]["res"][0] + 1, t0[tamper_at]["op"]["res"][1]]
             t0[tamper_at]["allowed"] = [t0[tamper_at]["op"]["res"]]
@@ -91,7 +96,8 @@ def edge_pipeline(cfg: str, src: str, seed: int, histories: dict | None, full: b
     r = c15_run.collect(p, od, timeout=900)
     rp = r["replay"]
     out.update(tours=rp["tours"], ops=rp["ops"], drift=rp.get("drift", 0), traces=r.get("traces", []),
-               garbage=r.get("garbage", ""))
+               garbage=r.get("garbage", ""),
+               **{k: rp.get(k, 0) for k in ("faults", "unfired", "swallowed", "after_fault", "abandoned")})
     if rp["tours"] != len(tours) and not rp["divergences"]:
         raise tlc.MachineryError(f"{cfg}: worker executed {rp['tours']} of {len(tours)} tours")
     seen = set()
@@ -111,6 +117,17 @@ def edge_pipeline(cfg: str, src: str, seed: int, histories: dict | None, full: b
             r2 = c15_run.collect(p2, od2, timeout=120)["replay"]
             if r2["divergences"]:
                 short = r2["divergences"][0]
+            # the divergence depends on more of the history than the model state (e.g. on what an earlier
+            # failed look-up left behind): shortest path to a state k operations back + the tour's last k
+            k = 4
+            while short is None and k < d["idx"] and k <= 512:
+                s0 = d["idx"] - k
+                sp = c15_run.shortest_to(g, paths[ti][s0]) + paths[ti][s0 + 1: d["idx"] + 1]
+                p2, od2 = c15_run.launch(dict(src=src, tours=c15_run.materialize(g, [sp])), "short")
+                r2 = c15_run.collect(p2, od2, timeout=120)["replay"]
+                if r2["divergences"] and (r2["divergences"][0]["op"]["op"], r2["divergences"][0]["what"]) == sig:
+                    short = r2["divergences"][0]
+                k *= 4
         except (StopIteration, tlc.MachineryError):
             short = None
         out["divergences"].append(short or d)
@@ -132,7 +149,8 @@ def report_edges(rep: Report, out: dict, cover: dict):
     rep.traces_validated += out["tours"]
     rep.evaluations += out["ops"]
     rep.distinct.update((cfg, i) for i in range(out["edges"]))
-    rep.extra.setdefault("replay", {})[cfg] = {k: out.get(k) for k in ("edges", "nodes", "inits", "tours", "ops", "drift", "tamper_rejected")}
+    rep.extra.setdefault("replay", {})[cfg] = {k: out.get(k) for k in ("edges", "nodes", "inits", "tours", "ops", "drift", "tamper_rejected",
+                                                                          "faults", "unfired", "swallowed", "after_fault", "abandoned")}
     rep.extra["replay"][cfg].update(states=res.distinct, transitions=res.generated)
     if out.get("tamper_rejected") is False and not out["divergences"]:
         raise tlc.MachineryError(f"{cfg}: a tampered edge was not rejected by the replay")
@@ -140,18 +158,22 @@ def report_edges(rep: Report, out: dict, cover: dict):
         rep.sample({"model": cfg, "tour": out["sample"]})
     for d in out["divergences"]:
         op = d["op"]
-        clause = {"GetCellSize": "CellFresh", "GetRatio": "RatioFresh", "SetRatio": "AutoSupport",
+        clause = {"GetCellSize": "CellFresh", "GetRatio": "RatioFresh",
+                  "SetRatio": "FixedSnapshot" if d["what"] == "res" else "AutoSupport",
                   "GetColors": "MemoFresh", "GetName": "MemoFresh"}.get(op["op"], "Conformance")
         if d["what"] == "body-count":
             clause = "BodyOnce"
         if op["op"] == "GetRatio" and not (d.get("allowed_prefix") or [[]])[-1]:
             clause = "RatioFixed"
-        hist = [[o["op"], o["arg"]] for o in d["prefix"]]
+        if op.get("aff"):  # TermCache!FaultFresh: the operation ran after a failed look-up of the same fact
+            clause = "FaultFresh"
+        hist = [[o["op"], o["arg"]] + ([f"raises {o['fault']}"] if o.get("fault") else []) for o in d["prefix"]]
         rep.violation(
             f"replay:{op['op']}:{clause}:{d['what']}",
             f"[{cfg}] after {len(hist) - 1} operations on terminal {d['env']}: {op['op']}{op['arg']} {d['detail']} "
             f"(real: {d['real']})\nhistory (last 12): {hist[-12:]}",
-            {"kind": "ops", "env": d["env"], "expect": d["prefix"], "allowed": d.get("allowed_prefix")},
+            {"kind": "ops", "env": d["env"], "expect": d["prefix"], "allowed": d.get("allowed_prefix"),
+             "fixed": d.get("fixed_prefix"), "errok": d.get("errok_prefix")},
         )
 
 
@@ -162,7 +184,7 @@ def validate_histories(rep: Report, traces: list[dict], owners: list, selfcheck=
     src_i = None
     if selfcheck:
         for i, t in enumerate(traces):
-            k = next((j for j, e in enumerate(t["ev"]) if e["op"] == "GetCellSize" and e["res"] != [0, 0]), None)
+            k = next((j for j, e in enumerate(t["ev"]) if e["op"] == "GetCellSize" and not e["fault"] and e["res"] != [0, 0]), None)
             if k is not None:
                 bad = copy.deepcopy(t)
                 bad["ev"][k]["res"] = [bad["ev"][k]["res"][0] + 1, bad["ev"][k]["res"][1]]
@@ -173,15 +195,17 @@ def validate_histories(rep: Report, traces: list[dict], owners: list, selfcheck=
     rep.states += st
     rep.transitions += tr
     if extra and verdicts[src_i]["verdict"] == "ok":
-        if not verdicts[-1]["verdict"].startswith("CellFresh"):
+        if not verdicts[-1]["verdict"].startswith(("CellFresh", "FaultFresh")):
             raise tlc.MachineryError(f"Trace_TermCache accepted a corrupted trace: {verdicts[-1]}")
         rep.extra["corrupted_trace_rejected"] = verdicts[-1]["verdict"][:60]
-    gets = exempt = 0
+    gets = exempt = faults = aff = 0
     for t, v, o in zip(traces, verdicts, owners):
         rep.traces_validated += 1
         rep.evaluations += len(t["ev"])
         gets += v["gets"]
         exempt += v["exempt"]
+        faults += v["faults"]
+        aff += v["aff"]
         rep.distinct.add(("history", o, len(t["ev"])))
         if v["verdict"].startswith("malformed"):
             raise tlc.MachineryError(f"history {o}: {v['verdict']}")
@@ -191,13 +215,15 @@ def validate_histories(rep: Report, traces: list[dict], owners: list, selfcheck=
             rep.violation(
                 f"history:{e['op']}:{clause}",
                 f"history {o} on terminal {t['env']}: {v['verdict']} at event {v['at']}: {e}\n"
-                f"preceding: {[[x['op'], x['arg'], x['res']] for x in t['ev'][max(0, v['at'] - 9): v['at'] - 1]]}",
-                {"kind": "history", "env": t["env"], "ops": [[x["op"], x["arg"]] for x in t["ev"][: v["at"]]], "trace": t},
+                f"preceding: {[[x['op'], x['arg'], ('raised ' + x['fault']) if x.get('fault') else x['res']] for x in t['ev'][max(0, v['at'] - 9): v['at'] - 1]]}",
+                {"kind": "history", "env": t["env"], "ops": [[x["op"], x["arg"], x.get("req", "")] for x in t["ev"][: v["at"]]], "trace": t},
             )
     rep.extra["histories"] = {"count": len(traces), "events": sum(len(t["ev"]) for t in traces),
-                              "cell_size_determinations": gets, "pixel_exemption_used": exempt}
-    if not rep.violations and (gets == 0 or exempt == 0):
-        raise tlc.MachineryError(f"histories are vacuous: gets={gets}, exemption used={exempt}")
+                              "cell_size_determinations": gets, "pixel_exemption_used": exempt,
+                              "faults_raised": faults, "lookups_after_a_failed_lookup": aff}
+    if not rep.violations and selfcheck and (gets == 0 or exempt == 0 or faults == 0 or aff == 0):
+        raise tlc.MachineryError(f"histories are vacuous: gets={gets}, exemption used={exempt}, faults raised={faults}, "
+                                 f"look-ups after a failed look-up={aff}")
 
 
 def main(rep: Report, replay: dict | None) -> None:
@@ -219,7 +245,9 @@ def _main(rep: Report, replay: dict | None) -> None:
     if replay:
         sc = replay["scenario"]
         if sc.get("kind") == "ops":
-            tour = [{"op": o, "allowed": a} for o, a in zip(sc["expect"], sc.get("allowed") or [[]] * len(sc["expect"]))]
+            n = len(sc["expect"])
+            tour = [{"op": o, "allowed": a, "fixed": f, "errok": k} for o, a, f, k in
+                    zip(sc["expect"], sc.get("allowed") or [[]] * n, sc.get("fixed") or [[]] * n, sc.get("errok") or [[]] * n)]
             # initial library state is the model's; the environment is the scenario's
             tour[0]["from"] = [sc["env"]]
             p, od = c15_run.launch(dict(src=src, tours=[tour]), "replay")
@@ -277,8 +305,10 @@ def _main(rep: Report, replay: dict | None) -> None:
         # exhaustive models without dump + seeded regressions of the models
         # (these configurations have no VIEW: the invariants read `out`, so the last operation is part
         # of the state identity and every returned value is judged)
-        mc_names = ("cell", "memo") if quick else ("cell", "memo", "all")
-        mc_cfg = {"cell": "MC_TermCache.cfg", "all": "MC_TermCache_all.cfg", "memo": "MC_TermCache_memo.cfg"}
+        # "fault": cell operations with failing look-ups (quick: 2 sizes x 2 pixel sizes, thorough: the `cell` family)
+        mc_names = ("cell", "memo", "fault") if quick else ("cell", "memo", "fault", "all")
+        mc_cfg = {"cell": "MC_TermCache.cfg", "all": "MC_TermCache_all.cfg", "memo": "MC_TermCache_memo.cfg",
+                  "fault": "MC_TermCache_faultq.cfg" if quick else "MC_TermCache_faultx.cfg"}
         mc_f = [tp.submit(tlc.run, "MC_TermCache", mc_cfg[n], workers=4 if quick else 6, timeout=1200, coverage=True)
                 for n in mc_names]
         var_f = {v: tp.submit(tlc.run, "MC_TermCache", c, workers=1, timeout=300, env={"VARIANT": v})
@@ -308,6 +338,10 @@ def _main(rep: Report, replay: dict | None) -> None:
 
         traces, owners = [], []
         outs = [f.result() for f in edge_f] + ([full_f.result()] if full_f else [])
+        if not any(o["res"].violated or o["divergences"] for o in outs) and (
+                not sum(o.get("faults", 0) for o in outs) or not sum(o.get("after_fault", 0) for o in outs)):
+            raise tlc.MachineryError("vacuous: no fault was raised out of a terminal query during the tours "
+                                     f"({[(o['cfg'], o.get('faults'), o.get('unfired'), o.get('swallowed')) for o in outs]})")
         for out in outs:
             report_edges(rep, out, cover)
             for k, t in enumerate(out.get("traces", [])):
